@@ -102,7 +102,7 @@ int main(int argc, char **argv)
 				if (got != (it != model.end())) V("get-result", "get(" + std::to_string(seq) + ") returned " + std::to_string(got));
 				else if (got && to != it->second) V(it->second.find('\0') != std::string::npos ? "get-bytes-nul" : "get-bytes", "get(" + std::to_string(seq) + ") size " + std::to_string(to.size()) + " want " + std::to_string(it->second.size()));
 			} else if (op < 62) {	// control put
-				unsigned s = (unsigned)r.below(r.chance(10) ? 0xffffffffu : 100000), t = (unsigned)r.below(r.chance(10) ? 0x7fffffffu : 100000);
+				unsigned s = r.chance(8) ? 0u : (unsigned)r.below(r.chance(10) ? 0xffffffffu : 100000), t = r.chance(8) ? 0u : (unsigned)r.below(r.chance(10) ? 0x7fffffffu : 100000);
 				snprintf(tb, sizeof tb, "ctl(%u,%u) ", s, t); trace += tb; hh = vh::mix(hh, 3);
 				bool got = p->put(s, t);
 				have_ctl = true; ctl_s = s; ctl_t = t;
